@@ -89,13 +89,18 @@ def Notify.curWords (n : Notify) : Nat :=
   let w := (len + 31) / 32
   if w < 1 then 1 else if w < histWordsMax then w else histWordsMax
 
-/-- `packet_notify_fill_notification_header` -/
-def Notify.fillHeader (n : Notify) (refresh : Bool) : Option (Notify × NotifHeader) :=
-  let cur := n.curWords
-  if refresh && decide (cur > n.writtenWords) then none else
-  let w := if refresh then n.writtenWords else cur
-  let n' := { n with writtenWords := w, writtenInAckSeq := n.inAckSeq }
-  some (n', { seq := n.outSeq, ackedSeq := n.inAckSeq, words := w, hist := n.hist.take (32 * (min w histWordsMax)) })
+/-- the header `packet_notify_fill_notification_header` produces with `w` history words -/
+def Notify.headerWith (n : Notify) (w : Nat) : NotifHeader :=
+  { seq := n.outSeq, ackedSeq := n.inAckSeq, words := w, hist := n.hist.take (32 * (min w histWordsMax)) }
+
+/-- `packet_notify_fill_notification_header(…, bRefresh = false)`: as many words as the un-acknowledged history needs -/
+def Notify.fillFresh (n : Notify) : Notify × NotifHeader :=
+  ({ n with writtenWords := n.curWords, writtenInAckSeq := n.inAckSeq }, n.headerWith n.curWords)
+
+/-- `packet_notify_fill_notification_header(…, bRefresh = true)`: only if no more words are needed than were reserved -/
+def Notify.fillRefresh (n : Notify) : Option (Notify × NotifHeader) :=
+  if n.curWords > n.writtenWords then none
+  else some ({ n with writtenInAckSeq := n.inAckSeq }, n.headerWith n.writtenWords)
 
 /-- `packet_header_write` with `bHasPacketInfoPayload = 0` -/
 def encodeNotifHeader (h : NotifHeader) : Bits :=
@@ -279,14 +284,12 @@ def Conn.freeBits (e : Env) (c : Conn) : Int := GetFreeSendBufferBits (c.sendBit
 
 /-- header placeholder written when the first bits enter an empty send buffer -/
 def Conn.startPacket (c : Conn) : Conn :=
-  match c.notify.fillHeader false with
-  | some (n, h) => { c with notify := n, sendActive := true, sendNotif := encodeNotifHeader h, sendBody := [] }
-  | none => c   -- unreachable: a non-refresh fill never fails
+  { c with notify := c.notify.fillFresh.1, sendActive := true, sendNotif := encodeNotifHeader c.notify.fillFresh.2, sendBody := [] }
 
 /-- the header that goes out with the packet: refreshed if the history still fits the space reserved for it,
 otherwise the placeholder written when the packet was started -/
 def Conn.finalHeader (c : Conn) : Notify × Bits :=
-  match c.notify.fillHeader true with
+  match c.notify.fillRefresh with
   | some (n, h) => (n, encodeNotifHeader h)
   | none => (c.notify, c.sendNotif)
 
